@@ -1144,6 +1144,10 @@ been initialized
                     )
 
             return renderer(render_data, render_args), padding
+        except BaseException:
+            # The caller never gets hold of the render data
+            render_data.finalize()
+            raise
         finally:
             if finalize:
                 render_data.finalize()
